@@ -118,13 +118,15 @@ fn check_in(flavour: crate::worker::Flavour, case: &GraphSpec) -> Verdict {
 }
 
 pub fn run(run: &mut Run) {
-    run.rule = "cases: typed-chaos documents: a plausible skeleton (catalog, two-level page tree, resources, Type0 font with ToUnicode, outline chain, name tree, image XObject, content stream) whose entries are overwritten by 0..11 chaos mutations binding any key the query code reads to a value of random kind (existing / dangling / self references, arrays of length 0..3, integer extremes, names from the vocabulary the code matches on, strings with BOMs and odd lengths, nested dictionaries) plus extra random objects. Every public read-only query (catalog, pages, page content/resources/fonts/annotations/images, text extraction, outlines, named destinations, table of contents, font encodings, stream decoding, dereference, datetime) is called for every object id inside the isolated worker (8 MiB stack, allocation limits, watchdog). Oracle: totality (no panic, abort, stack overflow, confirmed hang, oversized allocation). Campaign 'long-chains': a valid skeleton plus 1..3000 objects linked through one followed key (/Parent above a page, nested /Pages through /Kids, outline siblings through /Next, outline nesting through /First, name-tree nesting through /Kids), ending properly, dangling, in a cycle or in a self-link. Campaign 'unoptimised-build': both generators against a worker compiled without optimisation (dev profile, 2 MiB case stack). non-trivial = (a reference cycle through a key a walker follows AND an ill-typed value under such a key) or >= 100 objects; distinct by case hash.".into();
+    run.rule = "cases: typed-chaos documents: a plausible skeleton (catalog, two-level page tree, resources, Type0 font with ToUnicode, outline chain, name tree, image XObject, content stream) whose entries are overwritten by 0..11 chaos mutations binding any key the query code reads to a value of random kind (existing / dangling / self references, arrays of length 0..3, integer extremes, names from the vocabulary the code matches on, strings with BOMs and odd lengths, nested dictionaries) plus extra random objects. Every public read-only query (catalog, pages, page content/resources/fonts/annotations/images, text extraction, outlines, named destinations, table of contents, font encodings, stream decoding, dereference, datetime) is called for every object id inside the isolated worker (8 MiB stack, allocation limits, watchdog). Oracle: totality (no panic, abort, stack overflow, confirmed hang, oversized allocation). Campaign 'long-chains': a valid skeleton plus 1..3000 objects linked through one followed key (/Parent above a page, nested /Pages through /Kids, outline siblings through /Next, outline nesting through /First, name-tree nesting through /Kids), ending properly, dangling, in a cycle or in a self-link. Campaign 'ladders': 4..70 levels of two nodes, each linking to both nodes of the next level (name tree, outline, page tree). Campaign 'unoptimised-build': both generators against a worker compiled without optimisation (dev profile, 2 MiB case stack). non-trivial = (a reference cycle through a key a walker follows AND an ill-typed value under such a key) or >= 100 objects; distinct by case hash.".into();
     run.assumptions = vec!["a query answering Err/None/empty is a pass; only the process-level outcome is judged".into(), "watchdog 10 s, confirmed alone with 60 s before a hang is reported".into()];
     run.replay_known_demos(replay);
     let n = run.tier.pick(60_000, 1_500_000);
     run.campaign("chaos-graphs", chaos::graph_strategy, n, check, |_c, _v| None);
     // depth as a generated quantity: up to 3000 objects linked through one followed key
     run.campaign("long-chains", chaos::chain_strategy, run.tier.pick(400, 20_000), check, |_c, _v| None);
+    // shared nodes on many consecutive levels: linear for a walker that remembers what it visited, 2^levels otherwise
+    run.campaign("ladders", chaos::ladder_strategy, run.tier.pick(200, 5_000), check, |_c, _v| None);
     // both generators against lopdf compiled without optimisation (what `cargo test` and debug builds of a caller run)
     let unopt = || prop_oneof![2 => chaos::graph_strategy(), 1 => chaos::chain_strategy()].prop_map(|g| UnoptimisedCase { unoptimised: g });
     run.campaign("unoptimised-build", unopt, run.tier.pick(500, 40_000), check_unoptimised, |_c, _v| None);
